@@ -133,8 +133,9 @@ def changed_bonds(rep):
     rep.need("LOOP", len(adds), 1, "rc.add_edge in _add_changed_bonds")
     for c in adds:
         gs = guards_of(pm, c, lp)
-        rep.ob("O2.2", "LOOP", fi, not gs, c.func, "an included bond is added unconditionally",
-               {"guards": [norm(t) for t, _ in gs]}, node=c)
+        only_pred = len(gs) == 1 and gs[0][1] and isinstance(gs[0][0], ast.Call) and call_name(gs[0][0]) == "_should_include_edge"
+        rep.ob("O2.2", "LOOP", fi, only_pred, c.func, "a bond is added exactly when the inclusion predicate holds (no further condition)",
+               {"guards": [(norm(t), s_) for t, s_ in gs]}, node=c)
         rep.ob("O2.2", "SRC", fi, [norm(a) for a in c.args[:2]] == [u, v], f"add_edge({', '.join(norm(a) for a in c.args[:2])})",
                "the centre bond joins the ITS bond's end points", node=c)
         kws = [k for k in c.keywords if k.arg is None and isinstance(k.value, ast.Dict)]
@@ -160,7 +161,8 @@ def changed_bonds(rep):
     for c in ens:
         ok = len(c.args) >= 4 and norm(c.args[0]) == P[1] and norm(c.args[1]) == P[0] and norm(c.args[3]) == P[2]
         gs = guards_of(pm, c, lp)
-        rep.ob("O2.3", "SRC", fi, ok and not gs, c, "end atoms are copied from the ITS into rc with the requested label keys", node=c)
+        only_pred = all(s_ and isinstance(t, ast.Call) and call_name(t) == "_should_include_edge" for t, s_ in gs)
+        rep.ob("O2.3", "SRC", fi, ok and only_pred, c, "end atoms are copied from the ITS into rc with the requested label keys", node=c)
 
 
 def ensure_node(rep):
